@@ -567,6 +567,25 @@ func rulesC12(c *Ctx) {
 				}
 			}
 		}
+		// the same set written as a switch over the method (`switch msg.Method { case a, b, c: … }`) or as nested/chained ifs
+		inspectNoLit(val.Body, func(n ast.Node) {
+			if sw, ok := n.(*ast.SwitchStmt); ok && sw.Tag != nil && val.FieldPath(sw.Tag) == "Request.Method" {
+				for _, st := range sw.Body.List {
+					for _, e := range st.(*ast.CaseClause).List {
+						if s, ok := val.ConstString(e); ok {
+							serverMethods[s] = true
+						}
+					}
+				}
+			}
+			if is, ok := n.(*ast.IfStmt); ok {
+				if x, y, op, ok := binaryCmp(is.Cond); ok && op == token.EQL && val.FieldPath(x) == "Request.Method" {
+					if s, ok := val.ConstString(y); ok {
+						serverMethods[s] = true
+					}
+				}
+			}
+		})
 		same := len(clientMethods) == len(serverMethods) && len(clientMethods) >= 3
 		for m := range clientMethods {
 			if !serverMethods[m] {
